@@ -1,6 +1,7 @@
 from __future__ import annotations
 
 from copy import deepcopy
+from functools import reduce
 from typing import TYPE_CHECKING, Any, Generic, Self, TypeVar, cast, overload
 from warnings import warn
 
@@ -69,7 +70,7 @@ class CompositeOperation(Generic[OperationType]):
         Displacement
             The combined operation to perform on the atoms.
         """
-        return np.sum([op.calculate(context) for op in self.operations], axis=0)
+        return reduce(np.add, (op.calculate(context) for op in self.operations), 0.0)
 
     @overload
     def __add__(
